@@ -22,7 +22,7 @@ package oci
 //@
 //@ pure sameContent(a ocispec.Descriptor, b ocispec.Descriptor) bool = a.Size == b.Size && a.Digest == b.Digest && a.MediaType == b.MediaType
 //@ pure taggedNow(s *Store, d ocispec.Descriptor) bool = exists r string :: r != d.Digest && r in s.tagResolver.index && s.tagResolver.index[r].Digest == d.Digest
-//@ pure storeRI(s *Store) bool = s != nil && s.tagResolver != nil && alive(s.tagResolver) && resolverRI(s.tagResolver) && s.graph != nil && alive(s.graph) && graphRI(s.graph) && s.storage != nil && alive(s.storage)
+//@ pure storeRI(s *Store) bool = s != nil && s.index != nil && alive(s.index) && s.tagResolver != nil && alive(s.tagResolver) && resolverRI(s.tagResolver) && s.graph != nil && alive(s.graph) && graphRI(s.graph) && s.storage != nil && alive(s.storage)
 //@
 //@ func (*Storage).Delete
 //@   trusted
@@ -63,9 +63,10 @@ package oci
 //@ ghost local siTagOf(d digest.Digest) string
 //@ pure isTagRef(refMap map[string]ocispec.Descriptor, r string) bool = r in refMap && r != refMap[r].Digest
 //@ pure tagEntry(refMap map[string]ocispec.Descriptor, e ocispec.Descriptor, r string) bool = isTagRef(refMap, r) && K(e) == K(refMap[r]) && e.Annotations != nil && alive(e.Annotations) && "org.opencontainers.image.ref.name" in e.Annotations && e.Annotations["org.opencontainers.image.ref.name"] == r
-//@ pure digestEntry(refMap map[string]ocispec.Descriptor, e ocispec.Descriptor, r string) bool = r in refMap && r == refMap[r].Digest && K(e) == K(refMap[r]) && !("org.opencontainers.image.ref.name" in e.Annotations)
+//@ pure digestEntry(refMap map[string]ocispec.Descriptor, e ocispec.Descriptor, r string) bool = r in refMap && r == refMap[r].Digest && K(e) == K(refMap[r]) && !("org.opencontainers.image.ref.name" in e.Annotations) && (e.Annotations == nil || alive(e.Annotations))
 //@ func (*Store).saveIndex
-//@   requires [ri] storeRI(s) && s.index != nil
+//@   requires [ri] storeRI(s)
+//@   opt trust-frame
 //@   call writeIndexFile set indexVersion(s) = indexVersion(s) + (result == nil ? 1 : 0)
 //@   loop 0 invariant [objects] storeRI(s) && s.index != nil && s.index == old(s.index) && refMap != nil && alive(refMap) && tagged != nil && alive(tagged) && s.tagResolver == old(s.tagResolver) && (forall r string :: (r in refMap) == old(r in s.tagResolver.index) && (r in refMap ==> refMap[r] == old(s.tagResolver.index[r])))
 //@   loop 0 invariant [C08:every-visited-tag-written] forall r string :: r in $visited && isTagRef(refMap, r) ==> 0 <= siPos(r) && siPos(r) < len(manifests) && siSrc(siPos(r)) == r
@@ -78,14 +79,15 @@ package oci
 //@   loop 1 invariant [C08:every-tag-written] forall r string :: isTagRef(refMap, r) ==> 0 <= siPos(r) && siPos(r) < len(manifests) && siSrc(siPos(r)) == r
 //@   loop 1 invariant [C08:tagged-digests] (forall r string :: isTagRef(refMap, r) ==> refMap[r].Digest in tagged) && (forall d digest.Digest :: d in tagged ==> isTagRef(refMap, siTagOf(d)) && refMap[siTagOf(d)].Digest == d)
 //@   loop 1 invariant [C08:every-visited-untagged-digest-entry-written] forall r string :: r in $visited && r in refMap && r == refMap[r].Digest && !(refMap[r].Digest in tagged) ==> 0 <= siPos(r) && siPos(r) < len(manifests) && siSrc(siPos(r)) == r
-//@   loop 1 invariant [C08:entries-are-tag-or-untagged-digest-entries] forall i int :: 0 <= i && i < len(manifests) ==> tagEntry(refMap, manifests[i], siSrc(i)) || (digestEntry(refMap, manifests[i], siSrc(i)) && !(refMap[siSrc(i)].Digest in tagged))
+//@   loop 1 invariant [C08:entries-of-tags-carry-the-name] forall i int :: 0 <= i && i < len(manifests) && isTagRef(refMap, siSrc(i)) ==> tagEntry(refMap, manifests[i], siSrc(i))
+//@   loop 1 invariant [C08:other-entries-are-untagged-digest-entries] forall i int :: 0 <= i && i < len(manifests) && !isTagRef(refMap, siSrc(i)) ==> digestEntry(refMap, manifests[i], siSrc(i)) && !(refMap[siSrc(i)].Digest in tagged)
 //@   loop 1 backedge set siSrc(len(manifests)) = $key
 //@   loop 1 backedge set siPos($key) = (isTagRef(refMap, $key) ? siPos($key) : len(manifests))
 //@   ensures [C08:index-is-the-projection-of-the-resolver] result == nil ==> (forall r string :: old(r in s.tagResolver.index) && r != old(s.tagResolver.index[r]).Digest ==> 0 <= siPos(r) && siPos(r) < len(s.index.Manifests) && siSrc(siPos(r)) == r)
 //@   ensures [C08:nothing-else-is-written] result == nil ==> (forall i int :: 0 <= i && i < len(s.index.Manifests) ==> old(siSrc(i) in s.tagResolver.index) && K(s.index.Manifests[i]) == K(old(s.tagResolver.index[siSrc(i)])))
 //@   ensures result == nil ==> indexVersion(s) == old(indexVersion(s)) + 1
 //@   ensures result != nil ==> indexVersion(s) == old(indexVersion(s))
-//@   modifies ghost.indexVersion, alloc, ocispec.Index.Manifests, elems[ocispec.Descriptor], new map[string]string, new map[string]unit, new map[string]ocispec.Descriptor, new map[digest.Digest]unit
+//@   modifies ghost.indexVersion, alloc, ocispec.Index.Manifests, elems[ocispec.Descriptor], new map[string]string, new map[string]unit, new map[string]ocispec.Descriptor
 //@
 //@ func registry.Referrers
 //@   trusted
@@ -107,7 +109,7 @@ package oci
 //@
 //@ func deleteAnnotationRefName
 //@   ensures [C08:content-kept] result.Digest == desc0.Digest && result.MediaType == desc0.MediaType && result.Size == desc0.Size
-//@   ensures [C08:reference-name-removed] !("org.opencontainers.image.ref.name" in result.Annotations)
+//@   ensures [C08:reference-name-removed] !("org.opencontainers.image.ref.name" in result.Annotations) && (result.Annotations == nil || alive(result.Annotations))
 //@   ensures [C08:descriptor-without-reference-name-returned-as-is] !("org.opencontainers.image.ref.name" in desc0.Annotations) ==> result == desc0
 //@   ensures [C08:other-annotations-kept] len(desc0.Annotations) > 1 ==> (forall k string :: k != "org.opencontainers.image.ref.name" ==> (k in result.Annotations) == (k in desc0.Annotations) && (k in desc0.Annotations ==> result.Annotations[k] == desc0.Annotations[k]))
 //@   loop 0 invariant [objects] annotations != nil && alive(annotations) && !old(alive(annotations)) && desc.Annotations == desc0.Annotations
@@ -134,9 +136,9 @@ package oci
 //@   loop 2 invariant [C09:every-tag-kept] forall r string :: plainTag(refMap, r) ==> r in tagResolver.index && tagResolver.index[r] == refMap[r]
 //@   call Tag requires [aux:current-entry] ref in refMap && refMap[ref] == desc
 //@   ensures [C09:every-tag-kept] result == nil ==> (forall r string :: old(plainTag(s.tagResolver.index, r)) ==> r in s.tagResolver.index && s.tagResolver.index[r] == old(s.tagResolver.index[r]))
-//@   loop 0 invariant [ri] resolverRI(tagResolver) && graphRI(graph) && alive(tagResolver) && alive(graph) && tagged != nil && alive(tagged) && !isTagSetOf(tagResolver, tagged) && s.storage == old(s.storage)
-//@   loop 1 invariant [ri] resolverRI(tagResolver) && graphRI(graph) && alive(tagResolver) && alive(graph) && tagged != nil && alive(tagged) && !isTagSetOf(tagResolver, tagged) && s.storage == old(s.storage)
-//@   loop 2 invariant [ri] resolverRI(tagResolver) && graphRI(graph) && alive(tagResolver) && alive(graph) && tagged != nil && alive(tagged) && !isTagSetOf(tagResolver, tagged) && s.storage == old(s.storage) && subject != nil
+//@   loop 0 invariant [ri] resolverRI(tagResolver) && graphRI(graph) && alive(tagResolver) && alive(graph) && tagged != nil && alive(tagged) && !isTagSetOf(tagResolver, tagged) && s.storage == old(s.storage) && s.index != nil && alive(s.index)
+//@   loop 1 invariant [ri] resolverRI(tagResolver) && graphRI(graph) && alive(tagResolver) && alive(graph) && tagged != nil && alive(tagged) && !isTagSetOf(tagResolver, tagged) && s.storage == old(s.storage) && s.index != nil && alive(s.index)
+//@   loop 2 invariant [ri] resolverRI(tagResolver) && graphRI(graph) && alive(tagResolver) && alive(graph) && tagged != nil && alive(tagged) && !isTagSetOf(tagResolver, tagged) && s.storage == old(s.storage) && s.index != nil && alive(s.index) && subject != nil
 //@   loop 2 decreases [C09:subject-chain-terminates] height(*subject)
 //@   call (*Memory).Exists requires [C09:chain-checked-against-rebuilt-graph] args.m == graph
 //@   ensures [C09:ri] result == nil ==> storeRI(s)
